@@ -10,7 +10,7 @@ CONTROLS = os.path.join(VERIF, 'selftest', 'controls.c')
 
 
 def rule_selftest(ctx, cfg, label, which=None, rule='selftest'):
-    from . import const_rules as CR, resources as R, nullcheck as NC, masks as M, align as AL, globals_engine as G
+    from . import const_rules as CR, resources as R, nullcheck as NC, masks as M, align as AL, globals_engine as G, families as BF
     rr = RuleResult(rule, 'positive controls: each deliberately broken function in selftest/controls.c is reported by its rule')
     prog = frontend.load_program(cfg, extra_units=[CONTROLS])
     if prog.errors:
@@ -34,6 +34,7 @@ def rule_selftest(ctx, cfg, label, which=None, rule='selftest'):
         'C1': (lambda: M.rule_C1(c2, prog, label, only={'m4lint_ctl_C1'}), 'm4lint_ctl_C1'),
         'S1': (lambda: M.rule_S1(c2, prog, label), 'm4lint_ctl_S1'),
         'G1': (lambda: G.rule_G1(c2, prog, label), 'm4lint_ctl_G1'),
+        'B7p': (lambda: BF.rule_B7p(c2, prog, label), 'm4lint_ctl_B7p'),
     }
     if cfg['openmp']:
         from . import omp as H
